@@ -235,4 +235,9 @@ example : Valid [slash, 97] ∧ Valid [slash, 97, slash, 98] ∧
     covers [slash, 97] [slash, 97, 98] = false := by
   refine ⟨⟨⟨_, rfl⟩, Or.inr (by decide)⟩, ⟨⟨_, rfl⟩, Or.inr (by decide)⟩, by decide, by decide⟩
 
+/-- the tables and constants this property's theorems are stated over were READ OFF the current source on this run (a fact
+that can no longer be read is replaced by its expected value so that the model keeps compiling; it is then listed in
+`Facts.notExtracted` and this theorem fails) -/
+theorem C15_facts_extracted : ∀ n ∈ ["separator"], n ∈ Ucan.Facts.extracted := by decide
+
 end Ucan.Command
